@@ -17,6 +17,8 @@ CONSTANTS
   AllowProgress = FALSE
   PreFF = {TRUE}
   Coded = {"multiClearsFF"}
+  SubErrs = {}
+  DetIds = {"fresh"}
 VIEW ViewNoHist
 INVARIANT Verdict
 INVARIANT TagsScoped
